@@ -21,13 +21,13 @@ import (
 	"fmt"
 	"math/rand"
 	"os"
+	"reflect"
 	"regexp"
 	"runtime"
 	"runtime/debug"
 	"sort"
 	"strconv"
 	"strings"
-	"reflect"
 	"sync"
 	"sync/atomic"
 	"time"
